@@ -201,6 +201,10 @@ func Universe(si *world.SchemaInfo, profile string) []Slot {
 		add(P(E("ch"), E("gl", "id", "g2"), E("v")), "g1", "g2")
 		add(P(E("ch"), E("alphabet")), "z1", "z2")
 		add(P(E("ch"), E("betamax")), "z1", "z2")
+		// a presence container as case member: it can hold its own (bare) value and children at once
+		add(P(E("ch"), E("delta")), "")
+		add(P(E("ch"), E("delta"), E("p")), "p1", "p2")
+		add(P(E("ch"), E("delta"), E("q")), "q1", "q2")
 		for _, k := range []string{"a", "b"} {
 			add(P(E("chl", "name", k), E("one")), "o1", "o2")
 			add(P(E("chl", "name", k), E("two")), "t1", "t2")
